@@ -25,6 +25,7 @@ BASE_FEAT = dict(
     p_int_pos=0.12,
     p_type_pos=0.12,
     p_dup_sig=0.08,
+    p_self=0.0,  # probability that the function is an overloaded *method* (all methods take self)
     ncorpus=(4, 8),
     swarm_drop=0.35,  # probability to disable each optional kind in a world
 )
@@ -209,7 +210,8 @@ def gen_world(rng, f):
         "classes": classes, "virtual": virtual, "hooks": hooks, "deps": deps,
         "methods": methods,
         "meta": {"min_ar": min_ar, "max_ar": max_ar, "flavour": flavour,
-                 "has_kw": has_kw, "mixed": mixed},
+                 "has_kw": has_kw, "mixed": mixed,
+                 "self": (rng.choice(["func", "ovld"]) if rng.random() < f["p_self"] else None)},
     }
     return spec
 
